@@ -56,6 +56,9 @@ pub enum Ev {
     /// inc_length / dec_length (saturating)
     IncLen(u64),
     DecLen(u64),
+    /// with_elapsed(ms) applied late, to a clone of the live bar: only elapsed() is backdated - what the
+    /// estimator has learnt stays
+    WithElapsedLate(u32),
 }
 
 #[derive(Debug, Clone, Serialize, Deserialize)]
@@ -207,6 +210,15 @@ fn apply(pb: &ProgressBar, ev: &Ev, tr: &mut Track, pos: &mut u64) {
             pb.dec_length(*d);
             tr.len = tr.len.map(|l| l.saturating_sub(*d));
         }
+        Ev::WithElapsedLate(ms) => {
+            let before = pb.per_sec();
+            drop(pb.clone().with_elapsed(Duration::from_millis(*ms as u64)));
+            // (elapsed() now starts somewhere else, as after reset_elapsed: rates derived from it are not comparable any more)
+            tr.forward_only = false;
+            let after = pb.per_sec();
+            // (for a finished bar per_sec() is position / elapsed by definition, so it follows the backdating)
+            assert!(pb.is_finished() || before == after || (before.is_nan() && after.is_nan()), "LAW: with_elapsed() on a clone changed per_sec() from {before} to {after}");
+        }
         Ev::UpdateSetPos(p) => {
             *pos = *p;
             pb.update(|s| s.set_pos(*p));
@@ -255,7 +267,7 @@ fn run_laws(c: &LawCase) -> CaseResult {
         clock::advance(Duration::from_millis((*gap).max(1)));
         check_point(&pb, &tr, &format!("before step #{i} {ev:?}"))?;
         let before_reset = tr.reset_t;
-        catch(|| apply(&pb, ev, &mut tr, &mut pos)).map_err(|p| Fail::new("panic", format!("step #{i} {ev:?} panicked: {p}")))?;
+        catch(|| apply(&pb, ev, &mut tr, &mut pos)).map_err(|p| Fail::new(if p.contains("LAW:") { "estimate_forgotten" } else { "panic" }, format!("step #{i} {ev:?}: {p}")))?;
         if matches!(ev, Ev::Inc(d) if *d > 0) {
             updates += 1;
             if !gaps.contains(gap) {
@@ -286,7 +298,9 @@ fn run_laws(c: &LawCase) -> CaseResult {
                     rise = Some((k, total, p, ps));
                 }
             }
-            if total >= 3_600_000 {
+            // (after a same-instant burst - outside the quantified gaps - the estimator may not have seen a
+            // later backwards seek as one: only the point-wise laws above are asserted then)
+            if total >= 3_600_000 && tr.burst_extra == 0 {
                 ensure!(ps <= tr.max_rate * 1e-9, "stall_no_decay", "after a stall of {total} ms per_sec() is still {ps} (largest rate seen {})", tr.max_rate);
             }
         }
@@ -332,6 +346,7 @@ fn ev_strategy() -> BoxedStrategy<Ev> {
         1 => prop_oneof![0u64..1000, any::<u64>().prop_map(|x| x >> 11)].prop_map(Ev::UpdateSetPos),
         1 => prop_oneof![3 => 0u64..1000, 1 => any::<u64>(), 1 => Just(u64::MAX)].prop_map(Ev::IncLen),
         1 => prop_oneof![3 => 0u64..1000, 1 => any::<u64>(), 1 => Just(u64::MAX)].prop_map(Ev::DecLen),
+        1 => (0u32..100_000).prop_map(Ev::WithElapsedLate),
     ]
     .boxed()
 }
